@@ -1,8 +1,13 @@
 import numpy as np
 
 
+def _as_symbol_array(sequence):
+    # np.array() would coerce sequences of mixed types (e.g. ['a', 1] -> ['a', '1']) and break the comparisons
+    return np.fromiter(sequence, dtype=object, count=len(sequence))
+
+
 def levenshtein_distance(source, target, sub_cost=1, ins_cost=1, del_cost=1):
-    target = np.array(target)
+    target = _as_symbol_array(target)
     dist = np.arange(len(target) + 1) * ins_cost
     for s in source:
         dist[1:] = np.minimum(dist[1:] + del_cost, dist[:-1] + (target != s) * sub_cost)
@@ -14,7 +19,7 @@ def levenshtein_distance(source, target, sub_cost=1, ins_cost=1, del_cost=1):
 
 
 def levenshtein_alignment(source, target, sub_cost=1, ins_cost=1, del_cost=1, empty_symbol=None):
-    target = np.array(target)
+    target = _as_symbol_array(target)
     backtrack = np.ones((len(source) + 1, len(target) + 1))
     backtrack[0] = -1
     dist = np.arange(len(target) + 1) * ins_cost
@@ -43,7 +48,7 @@ def levenshtein_alignment(source, target, sub_cost=1, ins_cost=1, del_cost=1, em
 
 
 def levenshtein_alignment_path(source, target, sub_cost=1, ins_cost=1, del_cost=1, empty_symbol=None):
-    target = np.array(target)
+    target = _as_symbol_array(target)
     backtrack = np.ones((len(source) + 1, len(target) + 1))
     backtrack[0] = -1
     dist = np.arange(len(target) + 1) * ins_cost
@@ -88,7 +93,7 @@ def levenshtein_distance_substring(source, target, sub_cost=1, ins_cost=1, del_c
     if len(target) > len(source):
         target, source = source, target
 
-    target = np.array(target)
+    target = _as_symbol_array(target)
     dist = np.ones((1 + len(target) + 1)) * float('inf')
     dist[:-1] = np.arange(len(target) + 1) * ins_cost
     dist[-1] = dist[-2]
@@ -109,7 +114,7 @@ def levenshtein_alignment_substring(source, target, sub_cost=1, ins_cost=1, del_
         target, source = source, target
         swapped = True
 
-    target = np.array(target)
+    target = _as_symbol_array(target)
     backtrack = np.ones((len(source) + 1, 1 + len(target) + 1))
     backtrack[0] = -1
     dist = np.ones((1 + len(target) + 1)) * float('inf')
